@@ -495,6 +495,30 @@ Proof.
   rewrite slice_to_ok by exact Hl. cbn [obind]. cbv zeta. rewrite HC, HD.
   unfold recv_enc. cbn [mapacc]. reflexivity.
 Qed.
+(* the general form: the interpolated key enters the outcome only through what it decrypts C and D to.  Two
+   collections whose first shares agree on everything but the point and value, and whose (different) keys decrypt
+   (C, D) to the same plaintexts, have the same outcome - which for |C| + |D| = n bytes happens for a wrong key with
+   probability about 2^(-8n): certainly for an empty sharing, once in 256 for a one-byte message without coins *)
+Definition adec (K C D : bytes) : bytes * bytes :=
+  let '(ks, M) := recv_enc F (key F (new F Params.lbl_adss_encrypt) K) C in
+  let '(_, R) := recv_enc F ks D in (M, R).
+Theorem arecover_key_via_plaintext (s s' : ashare) rest rest' keyb keyb' :
+  aA s = aA s' -> aC s = aC s' -> aD s = aD s' -> aJ s = aJ s' ->
+  Shamir.recover (aA s) (map aS (s :: rest)) = Ok keyb -> Shamir.recover (aA s') (map aS (s' :: rest')) = Ok keyb' ->
+  (Params.adss_key_take <= length keyb)%nat -> (Params.adss_key_take <= length keyb')%nat ->
+  adec (firstn Params.adss_key_take keyb) (aC s) (aD s) = adec (firstn Params.adss_key_take keyb') (aC s) (aD s) ->
+  arecover F (s :: rest) = arecover F (s' :: rest').
+Proof.
+  intros HA HC HD HJ Hk Hk' Hl Hl' Hdec. rewrite !arecover_unfold, Hk, Hk'. cbn [obind].
+  replace (length keyb <? Params.adss_key_take)%nat with false by (symmetry; apply Nat.ltb_ge; exact Hl).
+  replace (length keyb' <? Params.adss_key_take)%nat with false by (symmetry; apply Nat.ltb_ge; exact Hl').
+  rewrite !slice_to_ok by assumption. cbn [obind]. cbv zeta. rewrite <- HA, <- HC, <- HD, <- HJ.
+  unfold adec in Hdec.
+  destruct (recv_enc F (key F (new F Params.lbl_adss_encrypt) (firstn Params.adss_key_take keyb)) (aC s)) as [ks1 M1].
+  destruct (recv_enc F (key F (new F Params.lbl_adss_encrypt) (firstn Params.adss_key_take keyb')) (aC s)) as [ks2 M2].
+  destruct (recv_enc F ks1 (aD s)) as [ks1' R1]. destruct (recv_enc F ks2 (aD s)) as [ks2' R2].
+  injection Hdec as <- <-. reflexivity.
+Qed.
 End AF3.
 
 Section AF4.
